@@ -183,6 +183,21 @@ def assemble_fn(unit, spec, idx, raw, counts):
         edits[-1] = (f["body_open"], f["body_open"], "\n" + contract.strip("\n") + "\n    ")
     # loops
     lspecs = spec.get("loop", [])
+    if len(lspecs) > len(f["loops"]):
+        # a loop the contract knows has disappeared (e.g. `while let` rewritten as `if let`): the
+        # function is still checked against its own requires/ensures; loop contracts are aligned
+        # with the remaining loops by kind, in order, and the ones without a partner are dropped
+        aligned = []
+        k = 0
+        for lp in f["loops"]:
+            while k < len(lspecs) and lspecs[k].get("kind") not in (None, lp["kind"]):
+                k += 1
+            if k == len(lspecs):
+                raise Undecided("anchor lost: loops of %s no longer match the contract" % spec["path"])
+            aligned.append(lspecs[k])
+            k += 1
+        counts["loop_contracts_dropped"] = counts.get("loop_contracts_dropped", 0) + len(lspecs) - len(aligned)
+        lspecs = aligned
     if len(lspecs) != len(f["loops"]):
         raise Undecided("anchor lost: %s has %d loops, contract has %d" % (spec["path"], len(f["loops"]), len(lspecs)))
     for k, (lp, ls) in enumerate(zip(f["loops"], lspecs)):
